@@ -138,6 +138,12 @@ def str_method(eng, base, attr, node):
             return concretize(Sym(res, STR)) if res is not None else ''
         if attr == 'split' and len(args) >= 1 and not is_sym(args[0]):
             return SplitParts(base, args[0])
+        if attr in ('isupper', 'islower') and not args:
+            # single character: inside A-Z / a-z
+            lo, hi = ('A', 'Z') if attr == 'isupper' else ('a', 'z')
+            if not eng_.feasible(z3.Length(s) != 1):
+                return Sym(z3.InRe(s, z3.Range(lo, hi)), BOOL)
+            raise Unsupported('str.%s on a symbolic string of unknown length' % attr)
         if attr == 'format':
             raise Unsupported('str.format on symbolic')
         raise Unsupported('str.%s on symbolic string' % attr)
